@@ -11,6 +11,7 @@ import (
 	"runtime"
 	"strings"
 	"sync"
+	"sync/atomic"
 	"time"
 
 	"github.com/ulikunitz/xz"
@@ -86,6 +87,13 @@ type ConcCase struct {
 	// SharedProps (lock-step only): the writer tasks re-tune one common
 	// lzma.Properties value, each right before it creates its writer.
 	SharedProps bool `json:"shared_props,omitempty"`
+	// Siblings: the case holds tasks that differ in one nudged configuration
+	// value; every task is then also compared with a run in a fresh process.
+	Siblings bool `json:"siblings,omitempty"`
+	// Cold (unsynchronised mode): the case is the very first use of the library
+	// in a fresh process - lazily initialised package state, "first time only"
+	// flags - and is run in a process of its own.
+	Cold bool `json:"cold,omitempty"`
 }
 
 func genConcTask(r *sim.Rng) ConcTask {
@@ -178,7 +186,7 @@ func genConcCase(r *sim.Rng, tier string, idx int) *ConcCase {
 	if os.Getenv("VERIF_C14_MODE") == "race" {
 		c.Mode = "free"
 		c.Procs = sim.Pick(r, []int{1, 4, 16})
-		c.Reps = 1
+		c.Reps = sim.Pick(r, []int{1, 1, 4, 12}) // the same set started together several times
 	}
 	n := r.Range(2, 8)
 	if c.Mode == "free" && idx < 64 {
@@ -199,6 +207,7 @@ func genConcCase(r *sim.Rng, tier string, idx int) *ConcCase {
 			w.Ops = []Op{{K: "w", N: w.Payload.Len()}, {K: "c"}}
 			c.Tasks = append(c.Tasks, ConcTask{W: w})
 		}
+		sameStreamReaders(r, c)
 		return c
 	}
 	for i := 0; i < n; i++ {
@@ -210,9 +219,134 @@ func genConcCase(r *sim.Rng, tier string, idx int) *ConcCase {
 			c.Tasks = append(c.Tasks, t)
 			continue
 		}
+		if i > 0 && c.Mode == "lockstep" && r.Chance(1, 6) {
+			// a sibling: an earlier writer task with one configuration value nudged
+			// (dictionary capacities that share a size code, look-ahead sizes, lc):
+			// anything cached under a lossy key of the configuration shows here
+			if t, ok := siblingOf(r, &c.Tasks[r.Intn(i)]); ok {
+				c.Tasks = append(c.Tasks, t)
+				c.Siblings = true
+				continue
+			}
+		}
 		c.Tasks = append(c.Tasks, genConcTask(r))
 	}
+	sameStreamReaders(r, c)
 	return c
+}
+
+// sameStreamReaders makes, in a third of the unsynchronised cases, all readers
+// of foreign xz streams read the same stream: they parse the same headers at
+// the same time (behind the start barrier).
+func sameStreamReaders(r *sim.Rng, c *ConcCase) {
+	if c.Mode != "free" || !r.Chance(1, 3) {
+		return
+	}
+	first := -1
+	for i := range c.Tasks {
+		if c.Tasks[i].R == nil || c.Tasks[i].R.Stream.Kind != "refenc-xz" {
+			continue
+		}
+		if first < 0 {
+			first = i
+			if r.Bool() {
+				unusualHeaders(r, &c.Tasks[i])
+			}
+		} else {
+			b, _ := json.Marshal(c.Tasks[first])
+			var t ConcTask
+			json.Unmarshal(b, &t)
+			c.Tasks[i] = t
+		}
+	}
+	if first >= 0 && r.Bool() {
+		// nothing but copies of that one short task, started together many times:
+		// two of them are inside the same few microseconds of header parsing
+		// only now and then
+		b, _ := json.Marshal(c.Tasks[first])
+		c.Tasks = nil
+		for k, n := 0, r.Range(4, 8); k < n; k++ {
+			var t ConcTask
+			json.Unmarshal(b, &t)
+			c.Tasks = append(c.Tasks, t)
+		}
+		c.Reps = 60
+		if c.Procs == 1 {
+			c.Procs = 4
+		}
+	}
+}
+
+// siblingOf copies a writer task and nudges one configuration value; the
+// payload is made long enough for the dictionary to matter.
+func siblingOf(r *sim.Rng, t *ConcTask) (ConcTask, bool) {
+	if t.W == nil {
+		return ConcTask{}, false
+	}
+	b, _ := json.Marshal(t)
+	var s ConcTask
+	json.Unmarshal(b, &s)
+	f := s.W.dictCapField()
+	dict, buf, lc := f[0], f[1], f[2]
+	if dict == nil {
+		return ConcTask{}, false
+	}
+	switch r.Intn(4) {
+	case 0, 1:
+		// another capacity under the same dictionary-size code (codes are 2^n and 3*2^(n-1))
+		base := *dict
+		if base == 0 {
+			return ConcTask{}, false
+		}
+		code := 4096
+		for code < base {
+			if code&(code-1) == 0 {
+				code += code / 2
+			} else {
+				code = code / 3 * 4
+			}
+		}
+		lo := code*2/3 + 1
+		if code&(code-1) == 0 {
+			lo = code*3/4 + 1
+		}
+		if lo < 4096 {
+			lo = 4096
+		}
+		*dict = r.Range(lo, code)
+		// both tasks get more data than the smaller dictionary holds
+		pl := sim.GenPayload(r, 3*code)
+		if pl.Len() <= code {
+			pl = sim.Payload{Kind: "text", N: r.Range(code+1, 3*code), Seed: r.Uint64()}
+		}
+		for _, w := range []*WCase{t.W, s.W} {
+			w.Payload = pl
+			w.Ops = []Op{{K: "w", N: pl.Len()}, {K: "c"}}
+			// keep the enlarged payload cheap: no tiny blocks, no degenerate tree
+			switch {
+			case w.XZ != nil:
+				w.XZ.Matcher = 0
+				if w.XZ.BlockSize > 0 && w.XZ.BlockSize < 4096 {
+					w.XZ.BlockSize = 0
+				}
+			case w.LZ != nil:
+				w.LZ.Matcher = 0
+			case w.L2 != nil:
+				w.L2.Matcher = 0
+			}
+			if w.LZ != nil && w.LZ.HasSize() {
+				w.LZ.Size, w.LZ.SizeInHeader = int64(pl.Len()), true
+			}
+		}
+	case 2:
+		if *buf == 0 {
+			*buf = 4096
+		}
+		*buf += r.Range(1, 3)
+	default:
+		*lc = (*lc + 1) % 4
+	}
+	return s, true
 }
 
 // runTask executes one task and returns a digest of everything observable.
@@ -277,7 +411,162 @@ func soloFresh(t *ConcTask) (string, string) {
 	return f[0], f[1]
 }
 
+// coldCase draws a cold-start case: several copies of one short task started
+// together as the first thing the process does with the library.
+func coldCase(r *sim.Rng) *ConcCase {
+	c := &ConcCase{Mode: "free", Cold: true, Procs: sim.Pick(r, []int{4, 16}), Reps: 2}
+	var t ConcTask
+	switch r.Intn(5) {
+	case 0, 1:
+		t = ConcTask{R: &RCase{Stream: StreamRecipe{Kind: "refenc-xz", Seed: r.Uint64()}, Src: genSrcPlan(r), Reads: []int{64}, RDict: 4096}}
+		tmp := &ConcCase{Mode: "free", Tasks: []ConcTask{t, t}}
+		unusualHeaders(r, &tmp.Tasks[0])
+		t = tmp.Tasks[0]
+	case 2:
+		w := genXZWCase(r, "src", 0, false)
+		w.Payload = sim.GenPayload(r, 600)
+		w.Ops = []Op{{K: "w", N: w.Payload.Len()}, {K: "c"}}
+		if w.XZ.BlockSize > 0 && w.XZ.BlockSize < 64 {
+			w.XZ.BlockSize = 100
+		}
+		t = ConcTask{W: w}
+	default:
+		t = genConcTask(r)
+	}
+	b, _ := json.Marshal(t)
+	for k, n := 0, r.Range(3, 8); k < n; k++ {
+		var u ConcTask
+		json.Unmarshal(b, &u)
+		c.Tasks = append(c.Tasks, u)
+	}
+	return c
+}
+
+// unusualHeaders re-seeds a refenc-xz reader task so that its stream has block
+// headers with size fields or more padding than needed (if one is found).
+func unusualHeaders(r *sim.Rng, t *ConcTask) {
+	for try := 0; try < 20; try++ {
+		seed := r.Uint64()
+		f := xzSpans((&StreamRecipe{Kind: "refenc-xz", Seed: seed}).Build().Stream)
+		if f == nil {
+			continue
+		}
+		for _, st := range f.Streams {
+			for _, bl := range st.Blocks {
+				if bl.HeaderPadding > 3 || bl.HasCompSize || bl.HasUncompSize {
+					t.R.Stream.Seed = seed
+					return
+				}
+			}
+		}
+	}
+}
+
+// runColdFresh runs a cold-start case in up to reps fresh processes of this
+// binary (the race-detector build when that is what runs) and returns the
+// first violation or race report.
+func runColdFresh(c *ConcCase, reps int) *sim.Violation {
+	self, err := os.Executable()
+	if err != nil {
+		sim.Infra("cannot locate own binary: %v", err)
+	}
+	return runColdFreshWith(self, c, reps)
+}
+
+func runColdFreshWith(self string, c *ConcCase, reps int) *sim.Violation {
+	b, _ := json.Marshal(c)
+	for i := 0; i < reps; i++ {
+		rep, _ := os.CreateTemp("", "verif-c14-race-")
+		rep.Close()
+		cmd := exec.Command(self, "c14case")
+		cmd.Stdin = bytes.NewReader(b)
+		cmd.Env = append(os.Environ(), "VERIF_C14_INPROC=1", "VERIF_C14_MODE=race", "VERIF_SHARD=", "VERIF_SHARD_OUT=",
+			"GORACE=halt_on_error=1 exitcode=66 log_path="+rep.Name())
+		out, err := cmd.Output()
+		files, _ := filepath.Glob(rep.Name() + "*")
+		detail := ""
+		for _, f := range files {
+			if bb, e := os.ReadFile(f); e == nil && len(bb) > 0 {
+				detail = firstLinesStr(string(bb), 40)
+			}
+			os.Remove(f)
+		}
+		if ee, ok := err.(*exec.ExitError); ok && ee.ExitCode() == 66 {
+			return sim.Viol("data-race", "race-detector:cold-start", "%s", detail)
+		}
+		var o concOutcome
+		if jerr := json.Unmarshal(out, &o); jerr != nil {
+			sim.Infra("cold-start case in a fresh process failed: %v %v (output %q)", err, jerr, string(out))
+		}
+		if o.Infra != "" {
+			sim.Infra("%s", o.Infra)
+		}
+		if o.Violation != nil {
+			return o.Violation
+		}
+	}
+	return nil
+}
+
+// concOutcome is what a case run in a child process reports back.
+type concOutcome struct {
+	Violation *sim.Violation   `json:"violation,omitempty"`
+	Counters  map[string]int64 `json:"counters"`
+	Infra     string           `json:"infra,omitempty"`
+}
+
+// runConcCaseFresh runs the case in a fresh process of this binary.
+func runConcCaseFresh(c *ConcCase, x *sim.Ctx) *sim.Violation {
+	self, err := os.Executable()
+	if err != nil {
+		sim.Infra("cannot locate own binary: %v", err)
+	}
+	b, _ := json.Marshal(c)
+	cmd := exec.Command(self, "c14case")
+	cmd.Stdin = bytes.NewReader(b)
+	cmd.Env = append(os.Environ(), "VERIF_C14_INPROC=1", "VERIF_SHARD=", "VERIF_SHARD_OUT=")
+	out, err := cmd.Output()
+	var o concOutcome
+	if jerr := json.Unmarshal(out, &o); jerr != nil {
+		sim.Infra("case in a fresh process failed: %v %v (output %q)", err, jerr, string(out))
+	}
+	if o.Infra != "" {
+		sim.Infra("%s", o.Infra)
+	}
+	for k, v := range o.Counters {
+		x.Count(k, v)
+	}
+	x.Shape(fmt.Sprintf("%s:n%d", c.Mode, len(c.Tasks)))
+	x.Eval(1)
+	x.Nontrivial(1)
+	if o.Violation != nil {
+		x.Ev("violation %s %s", o.Violation.Class, o.Violation.Site)
+	}
+	return o.Violation
+}
+
 func init() {
+	sim.Subcommands["c14case"] = func(args []string) int {
+		var c ConcCase
+		var o concOutcome
+		if err := json.NewDecoder(os.Stdin).Decode(&c); err != nil {
+			fmt.Fprintln(os.Stderr, err)
+			return 2
+		}
+		x := sim.NewCtx(false)
+		func() {
+			defer func() {
+				if r := recover(); r != nil {
+					o.Infra = fmt.Sprint(r)
+				}
+			}()
+			o.Violation = runConcCase(&c, x)
+		}()
+		o.Counters = x.Counters
+		b, _ := json.Marshal(o)
+		os.Stdout.Write(b)
+		return 0
+	}
 	sim.Subcommands["solotask"] = func(args []string) int {
 		var t ConcTask
 		if err := json.NewDecoder(os.Stdin).Decode(&t); err != nil {
@@ -432,7 +721,7 @@ func runConcCase(c *ConcCase, x *sim.Ctx) *sim.Violation {
 		// task leaves behind (a default mutated in place, a pooled buffer)
 		// would taint the later references. A third of the cases therefore
 		// also compare with each task run alone in a fresh process.
-		if c.SchedSeed%3 == 0 || hasViaVerify(c) {
+		if c.SchedSeed%3 == 0 || hasViaVerify(c) || c.Siblings {
 			x.Probe("fresh-process-references")
 			for i := range c.Tasks {
 				fd, fdet := soloFresh(&c.Tasks[i])
@@ -485,21 +774,43 @@ func runFree(tasks []ConcTask, procs int) (d, det []string) {
 	det = make([]string, n)
 	var wg sync.WaitGroup
 	start := make(chan struct{})
+	// every task prepares its input (building a stream can take far longer than
+	// reading it) and then waits until all are ready: the first library calls -
+	// constructors, header parsing, lazily initialised package state - happen
+	// together and not one task after the other
+	var ready int32
 	var infra any
 	var mu sync.Mutex
 	for i := 0; i < n; i++ {
 		wg.Add(1)
 		go func(i int) {
 			defer wg.Done()
+			arrived := false
+			arrive := func() {
+				if !arrived {
+					arrived = true
+					// a spinning barrier: everybody leaves it within nanoseconds
+					// (a sleeping one wakes its waiters one after the other, and a
+					// short task is done before the next one has started)
+					atomic.AddInt32(&ready, 1)
+					for atomic.LoadInt32(&ready) < int32(n) {
+						runtime.Gosched()
+					}
+				}
+			}
 			defer func() {
 				if r := recover(); r != nil {
 					mu.Lock()
 					infra = r
 					mu.Unlock()
 				}
+				if !arrived {
+					arrived = true
+					atomic.AddInt32(&ready, 1) // a task that failed before its first call must not hold up the others
+				}
 			}()
 			<-start
-			d[i], det[i] = runTask(&tasks[i], nil)
+			d[i], det[i] = runTask(&tasks[i], arrive)
 		}(i)
 	}
 	close(start)
@@ -638,6 +949,56 @@ func raceHalf(tier string, seed uint64, cov map[string]any) (int, []string) {
 			return 2, append([]string{fmt.Sprintf("INFRA: race half child %d exited %d", i, k.code)}, lastLines(k.out, 3)...)
 		}
 	}
+	// cold starts: many short-lived processes, each running one case of
+	// identical short tasks as its very first use of the library
+	ncold := 64
+	if tier == "thorough" {
+		ncold = 800
+	}
+	cr := sim.NewRng(sim.Mix(seed, sim.Tag("C14-cold")))
+	colds := make([]*ConcCase, ncold)
+	for i := range colds {
+		colds[i] = coldCase(cr)
+	}
+	coldV := make([]*sim.Violation, ncold)
+	var infraMsg string
+	sem := make(chan struct{}, 16)
+	var cwg sync.WaitGroup
+	var cmu sync.Mutex
+	for i := range colds {
+		cwg.Add(1)
+		sem <- struct{}{}
+		go func(i int) {
+			defer cwg.Done()
+			defer func() {
+				<-sem
+				if r := recover(); r != nil {
+					cmu.Lock()
+					infraMsg = fmt.Sprint(r)
+					cmu.Unlock()
+				}
+			}()
+			coldV[i] = runColdFreshWith(bin, colds[i], 1)
+		}(i)
+	}
+	cwg.Wait()
+	if infraMsg != "" {
+		return 2, []string{"INFRA: race half (cold starts): " + infraMsg}
+	}
+	for i, v := range coldV {
+		if v != nil {
+			cb, _ := json.Marshal(colds[i])
+			rf := sim.ReplayFile{Property: "C14", Engine: "conc", Seed: seed, Tree: "see git", Scenario: cb, Violation: v}
+			b, _ := json.MarshalIndent(rf, "", " ")
+			path := filepath.Join(dir, fmt.Sprintf("C14-cold-%s-seed%d.json", v.Class, seed))
+			os.WriteFile(path, b, 0o644)
+			return 1, []string{fmt.Sprintf("VIOLATION property=C14 replay=%s", path), "  class=" + v.Class + " site=" + v.Site + " " + firstLinesStr(v.Detail, 12)}
+		}
+	}
+	cov["race_detector_cold_starts"] = map[string]any{
+		"what":      "cases of 3-8 identical short tasks (foreign xz streams with unusual block headers, xz writers, others), each the first use of the library in a fresh -race process, started behind a spinning barrier",
+		"processes": ncold,
+	}
 	cov["race_detector_half"] = map[string]any{
 		"what":             "the same kind of task sets started together with no harness synchronisation, binary built with -race, GOMAXPROCS 1/4/16, in 8 fresh processes (each a cold start of the package: the concurrent phase runs before any sequential reference run); this half observes schedules the harness does not control (monitoring), it is included because the property names the race detector and lock-step parking would blind it",
 		"cases_completed":  completed,
@@ -646,7 +1007,7 @@ func raceHalf(tier string, seed uint64, cov map[string]any) (int, []string) {
 		"race_reports":     0,
 		"replay_of_a_race": "re-runs the task set under -race (first in a fresh process)",
 	}
-	return 0, []string{fmt.Sprintf("race-detector half: %d task sets in %d fresh processes, no race report, every task equals its solo run", completed, procs)}
+	return 0, []string{fmt.Sprintf("race-detector half: %d task sets in %d fresh processes, no race report, every task equals its solo run; %d cold-start processes clean", completed, procs, ncold)}
 }
 
 func lastLines(s string, n int) []string {
@@ -685,6 +1046,16 @@ func init() {
 						f.Close()
 					}
 				}
+			}
+			if c.Cold && os.Getenv("VERIF_C14_INPROC") == "" {
+				// (replay of a cold-start finding: up to 40 fresh processes)
+				return runColdFresh(c, 40)
+			}
+			if c.Mode == "lockstep" && os.Getenv("VERIF_C14_INPROC") == "" {
+				// one case, one process: whatever an earlier case left behind in
+				// package-level state cannot reach this one, so every violation is
+				// a function of the case alone and replays
+				return runConcCaseFresh(c, x)
 			}
 			return runConcCase(c, x)
 		},
